@@ -256,10 +256,14 @@ def rollbackOn (fl : RollbackFlags) (f : Faults) (s : St) : St × Outcome :=
       | (.crash, s1) => (s1, .crashed)
       | (.fail, s1) => (s1, .error)
       | (.ok, s1) =>
-        -- performRollback.  A failing Build or pre-rollback hook returns with the record still pending.
+        -- performRollback.  A failing pre- or post-rollback hook marks the new record failed
+        -- (failRollback; the write's own error is ignored) -- since the repair in /repo.
         match hookPhase s1 target (if fl.disableHooks then 0 else fl.nHooks) f.preHook with
         | (.crash, s1') => (s1', .crashed)
-        | (.fail, s1') => (s1', .error)
+        | (.fail, s1') =>
+          (match stUpdate s1' { target with status := .failed } with
+          | (.crash, s2) => (s2, .crashed)
+          | (_, s2) => (s2, .error))
         | (.ok, s1) =>
         match f.resources with
         | .crash => (s1, .crashed)
@@ -285,7 +289,10 @@ def rollbackOn (fl : RollbackFlags) (f : Faults) (s : St) : St × Outcome :=
         | .ok =>
         match hookPhase s1 target (if fl.disableHooks then 0 else fl.nHooks) f.postHook with
         | (.crash, s1') => (s1', .crashed)
-        | (.fail, s1') => (s1', .error)
+        | (.fail, s1') =>
+          (match stUpdate s1' { target with status := .failed } with
+          | (.crash, s2) => (s2, .crashed)
+          | (_, s2) => (s2, .error))
         | (.ok, s1) =>
           -- supersede every deployed record (errors ignored), then record the target as deployed
           let deployedRevs := ((s1.ledger.filter (·.status = .deployed)).map (·.rev))
